@@ -167,6 +167,15 @@ theorem bind {α β} {m : M α} {f : α → M β} {R : α → World → Prop} {Q
   | ok a => exact h2 a w' this
   | error x => exact this
 
+theorem mapExc {α} {m : M α} {f : Exc → Exc} {Q : α → World → Prop} (h : Triple P m Q E) :
+    Triple P (mapExc f m) Q E := by
+  intro w hw
+  have := h w hw
+  unfold ClientMain.mapExc
+  rcases hm : m w with ⟨r, w'⟩
+  rw [hm] at this
+  cases r <;> exact this
+
 theorem ite {α} {c : Prop} [Decidable c] {a b : M α} {Q : α → World → Prop}
     (ha : Triple P a Q E) (hb : Triple P b Q E) : Triple P (if c then a else b) Q E := by
   split <;> assumption
